@@ -37,6 +37,7 @@ def opts(tier):
     o.p_none = 0.25
     o.long_run_p = 0.006
     o.short_last_p = 0.08
+    o.declared_huge_p = 0.01
     o.equal_shapes_p = 0.25
 
     def scaling(rng, spec, ctype):
